@@ -242,6 +242,18 @@ def audit(ctx, theorem_files, extra_grep_files=()):
             continue
         for m in re.finditer(r'^\s*(?:noncomputable\s+)?def\s+([A-Za-z0-9_.\']*Statement)\b', src, re.M):
             stm.append(f'{f}: {m.group(1)}')
+    # a target is no longer open once a hypothesis-free `theorem name : X.Statement :=` discharges it in the same audited files
+    # (e.g. C17 dicke_reduction_eq, C15 su2_roundtrip_statement); the theorem itself is audited like every other theorem
+    proved = set()
+    for f in sorted(files):
+        try:
+            src = strip_lean_comments(open(os.path.join(LEAN, f)).read())
+        except FileNotFoundError:
+            continue
+        for m in re.finditer(r"^\s*theorem\s+[A-Za-z0-9_.']+\s*:\s*([A-Za-z0-9_.']*Statement)\s*:=", src, re.M):
+            proved.add(m.group(1))
+    ctx.proof['proved_statements'] = sorted(x for x in stm if x.split(': ', 1)[1] in proved)
+    stm = [x for x in stm if x.split(': ', 1)[1] not in proved]
     ctx.proof['statements'] = stm
     ctx.proof['obligations'] = len({n for _, n in names})
     if not ok:
@@ -437,6 +449,7 @@ def finish(ctx, proof_ok, level='proof', checker_cmd='', trusted=None, rule=''):
             # full-strength targets kept as `def …Statement : Prop` next to a proved `…_partial` are NOT counted here:
             # they are listed under open_statements (named gaps, see DESIGN.md / design_notes)
             obligations=len(ctx.proof['theorems']), discharged=max(ctx.proof['discharged'], 0) if ctx.proof['theorems'] else 0,
+            proved_statements=[x.split(': ', 1)[1] for x in ctx.proof.get('proved_statements', [])],
             open_statements=_dedupe_suffix(list(ctx.extra.get('open_statements', []) if isinstance(ctx.extra.get('open_statements', []), list) else []) + [x.split(': ', 1)[1] for x in ctx.proof.get('statements', [])]),
             checker_cmd=checker_cmd or f'cd lean && lake build {" ".join(module_of(f) for f in ctx.extra.get("theorem_files", []))} && lake env lean .lake/audit/Audit_{ctx.pid}.lean',
             trusted_base=trusted or [],
